@@ -2,17 +2,18 @@
 M: Rdp.tla and Fixed.tla machines for every oracle (termination, step bounds, well-formedness);
    negative instances reproduce the pinned tree's defects (end-point split, 2-point seed).
 T: one recorded event per simplifier call (outcome, loop back-edge count, reduced, removed)
-   judged by Trace_Simplify (kind "wf")."""
+   judged by Trace_Simplify (kind "wf").
+   Scale family: the same event for production-size inputs (deep one-sided refinements of 500 .. 6500 points, plain long
+   curves up to 10^5 points), judged by Trace_WellFormedScale (the same verdict operator, compact details)."""
 import itertools
+import random
 
 import numpy as np
 
-from harness import curves, numeric, par, simpl, static_cases
+from harness import curves, enums, monitor, numeric, par, scale, simpl, static_cases
 
 
-def _record(item):
-    cid, P, spec = item
-    P = np.asarray(P, float)
+def _case(cid, P, spec):
     ev = simpl.call(P, spec)
     mult = 1
     if spec["f"] == "min_point_rdp":
@@ -22,6 +23,13 @@ def _record(item):
             "reduced": ev.get("reduced", []), "removed": ev.get("removed") or [],
             "integral": bool(ev.get("reduced_integral", True) and ev.get("removed_integral", True)
                              and ev.get("removed") is not None) if ev["outcome"] == "returned" else True}
+    return case, ev
+
+
+def _record(item):
+    cid, P, spec = item
+    P = np.asarray(P, float)
+    case, ev = _case(cid, P, spec)
     return case, {"points": P.tolist(), "spec": spec, "error": ev.get("error")}
 
 
@@ -98,6 +106,311 @@ def inputs(ctx):
     return items
 
 
+# ---------------------------------------------------------------- scale family (production-size inputs)
+SCALE_MODULE = "Trace_WellFormedScale"
+DEEP_SHAPES = ("zigzag", "spikes", "sawtooth", "stairs_grow")
+LONG_SHAPES = ("mrc", "convex", "stairs", "valley", "elbow", "noisy", "walk")
+FINE = [("smape", 0.01), ("rpd", 0.01), ("rmspe", 0.01), ("rmsle", 0.01), ("r2", 0.99), ("r2", 0.999), ("rpd", 0.001)]
+COARSE = [("smape", 0.1), ("smape", 0.5), ("rpd", 0.1), ("rmspe", 0.5), ("rmsle", 0.1), ("r2", 0.5), ("r2", 0.9)]
+
+
+def _sawtooth(n, period):
+    """fill / flush ramps whose amplitude grows slowly to the right (the witness shape of the bounded-stack example)"""
+    i = np.arange(n)
+    return scale._xy((i % period) * (1.0 + (i // period) / (n / float(period))))
+
+
+def _noisy(n, seed, amp):
+    """power-law decay with multiplicative noise (the shape of the check's older `long` curves), x = 0..n-1"""
+    x = np.arange(1, n + 1, dtype=float)
+    return scale._xy(100.0 / np.sqrt(x) * (1.0 + amp * np.random.default_rng(seed).random(n)))
+
+
+def _walk(n, seed, floor):
+    """integer random walk shifted to y >= floor: no trend, thousands of retained points at fine thresholds"""
+    y = np.cumsum(np.random.default_rng(seed).integers(-3, 4, n)).astype(float)
+    return scale._xy(y - y.min() + floor)
+
+
+def build(d):
+    """the curve of a scale descriptor (a deterministic function of the descriptor: replays rebuild it)"""
+    s, n = d["shape"], d["n"]
+    rng = random.Random(d.get("seed", 0))
+    if s == "zigzag":
+        P = scale.zigzag(n, growth=d["growth"])
+    elif s == "spikes":
+        P = scale.spikes(n, period=d["period"])
+    elif s == "sawtooth":
+        P = _sawtooth(n, d["period"])
+    elif s == "stairs_grow":
+        P = scale.staircase(n, d["steps"], grow=True)
+    elif s == "stairs":
+        P = scale.staircase(n, d["steps"], rng=rng)
+    elif s == "mrc":
+        P = scale.mrc(n, rng, knees=d["knees"])
+    elif s == "convex":
+        P = scale.convex_pl(n, d["corners"])
+    elif s == "valley":
+        P = scale.valley(n, rng)
+    elif s == "elbow":
+        P = scale.elbow(n, d["corner"], d["s1"], d["s2"])
+    elif s == "noisy":
+        P = _noisy(n, d["seed"], d["amp"])
+    elif s == "walk":
+        P = _walk(n, d["seed"], d["floor"])
+    else:
+        raise ValueError(s)
+    if d.get("xmul", 1.0) != 1.0:           # dyadic factor: x stays exact and strictly increasing
+        P = P.copy()
+        P[:, 0] *= d["xmul"]
+    assert len(P) == n and np.all(np.isfinite(P)) and np.all(np.diff(P[:, 0]) > 0) and P[:, 1].min() >= 0
+    return np.ascontiguousarray(P)
+
+
+def _resolve(P, spec):
+    """grdp-family calls at scale.  The global variants recompute the global cost over all retained segments after every
+    refinement, so a call that stops after k refinements costs ~k^2/2 Python-level iterations, and k depends on the threshold
+    in a way nobody can predict (10^5-point random walk, rmsle 0.01: 19420 points, six minutes).  Every t > 0 is inside the
+    property's quantifier, so the threshold is CHOSEN: the global cost of the library's own fixed-size chain at length K
+    (`pilot`), nudged so that the chain member of length K is accepted - the call then stops after at most K refinements.
+    If the library disagrees with itself the call merely takes longer; nothing is judged from the pilot."""
+    spec = dict(spec)
+    K = spec.pop("pilot", None)
+    if spec.get("dtype") == "int64" and not simpl.integral(P):
+        del spec["dtype"]
+    if K is None:
+        return spec
+    import kneeliverse.evaluation as evaluation
+    import kneeliverse.metrics as metrics
+    cost = spec.get("cost", "smape")
+    base = {"f": "rdp_fixed", "length": K, "distance": spec.get("distance", "shortest"), "order": spec.get("order", "segment")}
+    if "dtype" in spec:
+        base["dtype"] = spec["dtype"]
+    ev = simpl.call(P, base)
+    if ev["outcome"] != "returned" or len(ev["reduced"]) < 2:
+        return None
+    Q = np.asarray(P).astype(np.int64) if spec.get("dtype") == "int64" else P
+    out, c, _ = monitor.call(evaluation.compute_global_cost, (Q, np.asarray(ev["reduced"]), enums.pick(metrics.Metrics, cost)),
+                             budget=monitor.quad(len(P), 16), wall=600)
+    if out != "returned":
+        return None
+    c = float(c)
+    t = c * (1 - 1e-9) if cost == "r2" else c * (1 + 1e-9)
+    if c == 0 and cost != "r2":          # the chain member fits exactly (piecewise-linear shapes): any t > 0 accepts it
+        t = 0.001
+    if not np.isfinite(t) or t <= 0 or (cost == "r2" and t > 1):
+        return None
+    if spec["f"] == "min_point_rdp":
+        spec["ts"] = [t * m for m in spec.pop("tmul")]
+    else:
+        spec["t"] = t
+    return spec
+
+
+def _record_scale(item):
+    cid, d, spec = item
+    P = build(d)
+    spec = _resolve(P, spec)
+    if spec is None:
+        return None, {"curve": d, "spec": item[2], "error": "pilot gave no usable threshold"}
+    case, ev = _case(cid, P, spec)
+    return case, {"curve": d, "spec": spec, "error": ev.get("error")}
+
+
+def _deep_desc(rng, shape, n):
+    if shape == "zigzag":
+        return {"shape": shape, "n": n, "growth": rng.choice([1.0 / 64, 1.0 / 1024, 0.25])}
+    if shape == "spikes":
+        return {"shape": shape, "n": n, "period": rng.choice([3, 4, 8])}
+    if shape == "sawtooth":
+        return {"shape": shape, "n": n, "period": rng.choice([3, 5, 8])}
+    return {"shape": shape, "n": n, "steps": n // rng.choice([4, 8])}
+
+
+def _long_desc(rng, shape, n):
+    d = {"shape": shape, "n": n, "seed": rng.randrange(2 ** 31), "xmul": rng.choice([1.0, 1.0, 0.25, 8.0])}
+    if shape == "stairs":
+        d["steps"] = rng.choice([12, 50, 300, 1500])
+    elif shape == "mrc":
+        d["knees"] = rng.choice([4, 12, 40])
+    elif shape == "convex":
+        d["corners"] = rng.choice([3, 40, 400])
+    elif shape == "elbow":
+        d.update(corner=rng.randrange(n // 8, n - n // 8), s1=-rng.choice([4.0, 1.0, 0.5]), s2=-rng.choice([0.25, 0.0625, 0.0]))
+    elif shape == "noisy":
+        d["amp"] = rng.choice([0.02, 0.2])
+    elif shape == "walk":
+        d["floor"] = rng.choice([0.0, 64.0])
+    return d
+
+
+def _global_spec(rng, f, K):
+    """a grdp-family call that stops after at most K refinements (see _resolve)"""
+    if f == "min_point_rdp":        # default cost / order / distance inside; every listed threshold is >= the pilot's
+        tm = rng.sample([1.0, 4.0, 16.0, 64.0], rng.randint(1, 3))
+        return {"f": f, "pilot": K, "tmul": tm, "ts": None, "min_points": rng.choice([0, 5, K // 2, K, K + rng.randint(1, 900)])}
+    spec = {"f": f, "pilot": K, "t": None, "distance": rng.choice(simpl.DISTANCES), "cost": rng.choice(simpl.COSTS),
+            "order": rng.choice(simpl.ORDERS)}
+    if f == "mp_grdp":
+        spec["min_points"] = rng.choice([0, 7, K // 2, K + rng.randint(1, 900)])
+    return spec
+
+
+def _maybe_int(rng, d, spec):
+    if d["shape"] in ("convex", "stairs", "stairs_grow", "valley", "walk") and d.get("xmul", 1.0) >= 1.0 and rng.random() < 0.3:
+        spec = dict(spec, dtype="int64")
+    return spec
+
+
+def scale_inputs(ctx):
+    """(id, curve descriptor, spec) for the production-size calls; returns the items and a coverage summary"""
+    rng = ctx.rng
+    q = ctx.quick
+    items = []
+    # (a) deep ONE-SIDED refinements: the farthest point of every prefix is near its right end, so threshold rdp keeps one
+    #     pending sibling per level (hundreds to thousands at once) and performs ~2n refinement steps; the priority stacks of
+    #     the fixed-size / global variants hold hundreds of splittable segments
+    deep_sizes = scale.sizes(ctx, lo=500, hi=6500, k_quick=3, k_thorough=6)
+    if not q:
+        deep_sizes = sorted(set(deep_sizes) | {6000 + rng.randrange(1, 500)})
+    for n in deep_sizes:
+        for shape in DEEP_SHAPES:
+            d = _deep_desc(rng, shape, n)
+            tag = "deep-%s-%d" % (shape, n)
+            for k, dist in enumerate(simpl.DISTANCES * (1 if q else 2)):
+                cost, t = rng.choice(FINE)
+                items.append(("%s-rdp%d" % (tag, k), d, {"f": "rdp", "t": t, "distance": dist, "cost": cost}))
+            cost, t = rng.choice(COARSE if q else COARSE + FINE)
+            items.append((tag + "-rdpc", d, {"f": "rdp", "t": t, "distance": rng.choice(simpl.DISTANCES), "cost": cost}))
+            L = rng.choice([n // 2, n // 3, n // 3] + ([n - 1, n, n + 5] if n <= 2200 else []))
+            items.append((tag + "-fixed", d, _maybe_int(rng, d, {"f": "rdp_fixed", "length": L, "distance": rng.choice(simpl.DISTANCES),
+                                                                 "order": rng.choice(simpl.ORDERS)})))
+            f = rng.choice(["grdp", "mp_grdp", "min_point_rdp"])
+            if n <= (1300 if q else 2200):     # full refinement is affordable: fixed (fine) thresholds
+                cost, t = rng.choice(FINE)
+                spec = {"f": f, "t": t, "distance": rng.choice(simpl.DISTANCES), "cost": cost, "order": rng.choice(simpl.ORDERS)}
+                if f == "mp_grdp":
+                    spec["min_points"] = rng.choice([0, n // 2, n + 1])
+                if f == "min_point_rdp":
+                    spec = {"f": f, "ts": rng.choice([[0.01, 0.001], [0.05], [0.5, 0.1, 0.0001]]), "min_points": rng.choice([5, n // 2, n])}
+            else:
+                spec = _global_spec(rng, f, rng.randint(300, 1200 if q else 1800))
+            items.append(("%s-%s" % (tag, f), d, _maybe_int(rng, d, spec)))
+    # (b) plain long curves through all five simplifiers
+    long_sizes = scale.sizes(ctx, lo=1000, hi=110000, k_quick=3, k_thorough=8)
+    gi = 0
+    for n in long_sizes:
+        for shape in LONG_SHAPES:
+            d = _long_desc(rng, shape, n)
+            tag = "long-%s-%d" % (shape, n)
+            # threshold rdp: dense results (10^4 .. 10^5 retained points) are requested explicitly below, not here
+            noisy_shape = shape in ("noisy", "walk", "mrc")
+            pool = COARSE + FINE
+            if noisy_shape and n > 12000:      # (noise has a low R2 at every scale: dense whatever the threshold)
+                pool = [c for c in COARSE if not (shape in ("walk", "noisy") and c[0] == "r2")]
+            for k in range(1 if q else 2):
+                cost, t = rng.choice(pool)
+                items.append(("%s-rdp%d" % (tag, k), d, _maybe_int(rng, d, {"f": "rdp", "t": t, "distance": rng.choice(simpl.DISTANCES),
+                                                                              "cost": cost})))
+            Ls = [rng.choice([2, 3]), rng.randint(4, 60), rng.randint(300, 1500)] + ([] if q else [rng.randint(2000, 4500)])
+            for k, L in enumerate(rng.sample(Ls, 1 if q else 2)):
+                items.append(("%s-fixed%d" % (tag, k), d, _maybe_int(rng, d, {"f": "rdp_fixed", "length": L,
+                                                                                "distance": rng.choice(simpl.DISTANCES),
+                                                                                "order": rng.choice(simpl.ORDERS)})))
+            f = ("grdp", "mp_grdp", "min_point_rdp")[gi % 3]
+            gi += 1
+            items.append(("%s-%s" % (tag, f), d, _maybe_int(rng, d, _global_spec(rng, f, rng.randint(150, 900 if q else 2500)))))
+    # (c) dense results: tens of thousands of retained indices / removed rows and refinement steps from ONE call
+    dense_sizes = [33001 + rng.randrange(0, 7000)] if q else [10001 + rng.randrange(0, 3000), 16385 + rng.randrange(0, 4000),
+                                                              32769 + rng.randrange(0, 4000), 65537 + rng.randrange(0, 9000)]
+    for n in dense_sizes:
+        shape = rng.choice(["noisy", "walk"])
+        d = _long_desc(rng, shape, n)
+        cost, t = rng.choice([("rpd", 0.001), ("r2", 0.999), ("smape", 0.001), ("rpd", 0.0001)])
+        items.append(("dense-%s-%d" % (shape, n), d, {"f": "rdp", "t": t, "distance": rng.choice(simpl.DISTANCES), "cost": cost}))
+    seen = {}
+    for k, it in enumerate(items):          # ids are unique by construction; make sure of it
+        seen[it[0]] = seen.get(it[0], 0) + 1
+        if seen[it[0]] > 1:
+            items[k] = ("%s~%d" % (it[0], seen[it[0]]),) + tuple(it[1:])
+    # slowest first (pmap hands them out one by one)
+    weight = {"rdp": 1.0, "rdp_fixed": 1.0, "grdp": 4.0, "mp_grdp": 4.0, "min_point_rdp": 6.0}
+    items.sort(key=lambda it: -(it[1]["n"] * weight[it[2]["f"]] * (8.0 if it[0].startswith("deep") else 1.0)))
+    return items, {"deep_sizes": deep_sizes, "long_sizes": long_sizes, "dense_sizes": dense_sizes,
+                   "deep_shapes": list(DEEP_SHAPES), "long_shapes": list(LONG_SHAPES)}
+
+
+def _scale_selftests():
+    """static cases for the scale validator (independent of the code under test): the hand-checkable small case and its
+    corruptions, plus a synthetic 3001-index reduction of a 9001-point curve, intact and cut the way a bounded work stack
+    cuts it (the tail of the index list is missing, the last index is still n-1)"""
+    good = static_cases.get("C01")
+    S = list(range(0, 9001, 3))
+    big = dict(good, n=9001, steps=6000, reduced=S, removed=[[a, 2] for a in S[:-1]])
+    cutS = S[:256] + [9000]
+    cut = dict(big, reduced=cutS, removed=[[a, 2] for a in cutS[:-2]] + [[cutS[-2], 0]])
+    wrap = dict(big, reduced=S[:2000] + [v - 65536 for v in S[2000:]])          # a 16-bit index wrapping around
+    return [(good, "ok"), (big, "ok"),
+            (dict(good, reduced=good["reduced"][:-1] + [good["reduced"][-2]]), None),
+            (dict(good, outcome="budget"), "terminates"),
+            (dict(good, removed=[[r[0], r[1] + 1] for r in good["removed"]]), "removed-counts"),
+            (dict(good, steps=10 * good["n"]), "step-bound"),
+            (cut, "removed-counts"), (wrap, "endpoints"),
+            (dict(big, removed=big["removed"][:-1]), "removed-rows"),
+            (dict(big, reduced=S[:1500] + [S[1499]] + S[1501:]), "increasing")]
+
+
+def _judge_scale(ctx, cases, selftest=None):
+    """Trace_WellFormedScale over the recorded cases, in chunks of roughly equal JSON size (<= ~2 MB each)"""
+    cases = sorted(cases, key=lambda c: -len(c["reduced"]))
+    total = sum(len(c["reduced"]) for c in cases)
+    k = max(1, -(-total // 60000))
+    groups = [cases[g::k] for g in range(k)]
+    flat = [c for g in groups for c in g]
+    return ctx.trace(SCALE_MODULE, flat, selftest=selftest, chunk=max(1, -(-(len(flat) + len(selftest or [])) // k)))
+
+
+def run_scale(ctx):
+    import time
+    t0 = time.time()
+    items, cover = scale_inputs(ctx)
+    rec = par.pmap(_record_scale, items, chunksize=1)
+    meta = {it[0]: m for it, (c, m) in zip(items, rec)}
+    cases = [c for c, _ in rec if c is not None]
+    skipped = [it[0] for it, (c, _) in zip(items, rec) if c is None]
+    # JSON budget: ~20 bytes per retained index (index + removed row)
+    budget = 200000 if ctx.quick else 600000
+    judged, over, used = [], [], 0
+    for c in cases:
+        if used + len(c["reduced"]) > budget and len(c["reduced"]) > 2000:
+            over.append(c["id"])
+            continue
+        used += len(c["reduced"])
+        judged.append(c)
+    rej = _judge_scale(ctx, judged, selftest=_scale_selftests())
+    byf = {}
+    for c in judged:
+        m = meta[c["id"]]
+        ctx.count((c["f"], m["curve"], m["spec"]), c["n"] >= 3 and c["outcome"] == "returned")
+        byf[c["f"]] = byf.get(c["f"], 0) + 1
+    for cid, vs in rej.items():
+        m = meta[cid]
+        ctx.violation(vs[0][0], {"kind": "scale", "curve": m["curve"], "spec": m["spec"]}, {"verdict": vs[0], "error": m["error"]})
+    cover.update(calls=len(judged), by_function=byf, retained_indices_judged=used,
+                 max_retained=max([len(c["reduced"]) for c in judged] or [0]),
+                 max_refinement_steps=max([c["steps"] for c in judged] or [0]),
+                 pilot_without_threshold=len(skipped), over_json_budget=len(over), wall_s=round(time.time() - t0, 1))
+    ctx.extra["scale"] = cover
+    if skipped:
+        ctx.note("scale: %d grdp-family calls not made (the pilot chain gave no usable threshold: non-finite or zero global "
+                 "cost), e.g. %s" % (len(skipped), skipped[:3]))
+    if over:
+        ctx.note("scale: %d recorded results beyond the JSON budget were not judged: %s" % (len(over), over[:5]))
+    big = [c for c in judged if len(c["reduced"]) > 256]
+    if big:
+        ctx.sample({"binding": "T", "family": "scale", "case": big[len(big) // 2], "call": meta[big[len(big) // 2]["id"]]})
+
+
 def model_checks(ctx):
     ctx.mc("Rdp", "MC_Rdp", need_actions=("RdpAccept", "RdpSplit", "Finish"))
     ctx.mc("Rdp", "MC_Rdp_buggy", expect="StepBound")
@@ -119,7 +432,11 @@ def run(ctx):
     ctx.rule = ("T: adversarial curves x the full configuration product; sampled grid curves (n<=6, y<=3, spacings 1..3), "
                 "random families, bundled-trace windows x sampled configurations of the 5 simplifiers. "
                 "non-trivial: the call refines at least once (a point beyond the two ends is retained or dropped) "
-                "and the curve has n >= 3")
+                "and the curve has n >= 3. "
+                "Scale family: deep one-sided refinements (zigzag / spikes / sawtooth / growing staircase, 500..6500 points, "
+                "hundreds to thousands of pending segments) and plain long curves (7 shapes, sizes just above 1024 .. 10^5) "
+                "through the 5 simplifiers, plus dense threshold-rdp results (10^4..10^5 retained indices); every clause of "
+                "the property is table-free and is judged on the complete result by Trace_WellFormedScale")
     ctx.assumptions += numeric.ASSUMPTIONS + [
         "step counts are loop back-edges of the simplifier's refinement loop (sys.monitoring), judged against "
         "2 x the bound proved in MC_Rdp/MC_Fixed + 4",
@@ -144,10 +461,19 @@ def run(ctx):
                       {"verdict": vs[0], "error": m["error"]})
     ctx.sample({"binding": "T", "case": cases[7], "call": meta[cases[7]["id"]]})
     ctx.sample({"binding": "T", "case": cases[-5], "call": meta[cases[-5]["id"]]})
+    run_scale(ctx)
 
 
 def replay(ctx, obj):
     c = obj["case"]
+    if c.get("kind") == "scale":
+        case, m = _record_scale(("replay", c["curve"], c["spec"]))
+        if case is None:
+            ctx.note("replay: " + m["error"])
+            return
+        for cid, vs in _judge_scale(ctx, [case]).items():
+            ctx.violation(vs[0][0], c, {"verdict": vs[0], "error": m["error"]})
+        return
     case, m = _record(("replay", c["points"], c["spec"]))
     rej = ctx.trace("Trace_Simplify", [case])
     for cid, vs in rej.items():
